@@ -269,6 +269,99 @@ def bump_inplace(a):
         a += 1
 
 
+# ----------------------------------------------------------------------------- object graphs
+GRAPH_ATTRS = dict({c: list(CLASSES[c]["fields"]) for c in CLASSES},
+                   ge=["gpmod", "nenv", "nrep", "var_env", "var_rep", "var_err", "rng"])
+
+
+class Graph:
+    """heap of cells built from live Python objects; identity = id()"""
+
+    def __init__(self):
+        self.cells, self.addr, self.keep = [], {}, []
+
+    def ref(self, x):
+        M = _mods()
+        if x is None:
+            return None
+        if isinstance(x, (numpy.ndarray, dict)) or type(x) in self._classes():
+            if id(x) in self.addr:
+                return {"ptr": self.addr[id(x)]}
+            self.keep.append(x)
+            if isinstance(x, numpy.ndarray):
+                cell = {"arr": enc_ds(x)}
+            elif isinstance(x, dict):
+                cell = {"dict": [[str(k), self.ref(v)] for k, v in x.items()]}
+            else:
+                cls = self._classes()[type(x)]
+                cell = {"obj": cls, "attrs": [[k, self.ref(getattr(x, k))] for k in GRAPH_ATTRS[cls]]}
+            self.cells.append(cell)            # children first: every reference points below its cell
+            self.addr[id(x)] = len(self.cells) - 1
+            return {"ptr": self.addr[id(x)]}
+        if isinstance(x, (numpy.random.Generator, numpy.random.RandomState)) or hasattr(x, "bit_generator") \
+                or type(x).__module__.startswith("pybrops.core.random"):
+            if id(x) not in self.addr:
+                self.keep.append(x)
+                self.cells.append({"ext": "rng"})
+                self.addr[id(x)] = len(self.cells) - 1
+            return {"ptr": self.addr[id(x)]}
+        return {"imm": enc_ds(x)}
+
+    @staticmethod
+    def _classes():
+        M = _mods()
+        return {M[c]: c for c in CLASSES}
+
+
+def g_kids(cell):
+    return cell.get("dict") or cell.get("attrs") or []
+
+
+def g_canon(cells, root):
+    """the graph below `root` with addresses renumbered in depth-first order"""
+    num, out = {}, []
+
+    def go(r):
+        if r is None or "imm" in r:
+            return r
+        a = r["ptr"]
+        if a in num:
+            return {"ptr": num[a]}
+        num[a] = len(num)
+        c = cells[a]
+        slot = len(out)
+        out.append(None)
+        if "arr" in c or "ext" in c:
+            out[slot] = c
+        elif "dict" in c:
+            out[slot] = {"dict": [[k, go(v)] for k, v in c["dict"]]}
+        else:
+            out[slot] = {"obj": c["obj"], "attrs": [[k, go(v)] for k, v in c["attrs"]]}
+        return {"ptr": num[a]}
+    return {"root": go(root), "cells": out}
+
+
+def g_tree(cells, r):
+    if r is None or "imm" in r:
+        return r
+    c = cells[r["ptr"]]
+    if "arr" in c or "ext" in c:
+        return c
+    if "dict" in c:
+        return {"dict": sorted([[k, g_tree(cells, v)] for k, v in c["dict"]], key=lambda kv: kv[0])}
+    return {"obj": c["obj"], "attrs": [[k, g_tree(cells, v)] for k, v in c["attrs"]]}
+
+
+def g_reach(cells, r, acc=None):
+    acc = set() if acc is None else acc
+    if r is None or "imm" in r or r["ptr"] in acc:
+        return acc
+    acc.add(r["ptr"])
+    for _, v in g_kids(cells[r["ptr"]]):
+        g_reach(cells, v, acc)
+    return acc
+
+
 # ----------------------------------------------------------------------------- generation helpers
 NAMES = ["tå", "βb", "c c", "D-4", "e_5", "ζ", "g.7", "日本", "i"]
 TRAITS = ["yld", "hté", "oil %", "prot"]
@@ -432,14 +525,17 @@ class C16(Prop):
     MODULE = "PybropsModel.Props.C16"
     N_QUICK = 300
     N_THOROUGH = 4000
-    CORRESPONDENCE = ("functional (h5 histories, copies, VCF import, breeding-value and genetic-map frames); "
-                      "relational = Spec only (coancestry / variance-matrix / extended-map / model frames and CSV text)")
+    CORRESPONDENCE = ("functional (h5 histories, flat copies, object-graph deep copies, VCF import, all seven "
+                      "data-frame layouts); CSV text is covered by the frame models through the abstract "
+                      "dialect contract (cell printing/parsing itself is trusted)")
     RULE = ("h5 (40%): histories of 1-6 to_hdf5 calls on one file (8 classes; optional label arrays present/absent, "
             "grouped or not, non-ASCII labels and group names, odd spellings of nested groups, same and different "
             "groups and classes, richer-then-poorer and same-/different-shape overwrites, overwrite=False on "
             "occupied groups, file name or open h5py.File) with interleaved reads and a final from_hdf5 of every "
             "location; non-trivial = a location written at least twice or >= 5 fields present.  "
-            "copy (20%): copy.copy / copy.deepcopy / .copy() / .deepcopy() of 10 classes, then every buffer of "
+            "graph (8%): the object graph (arrays, dictionaries, nested instances, random source) of an object "
+            "with and without aliased attributes, deep-copied by copy.deepcopy and by .deepcopy(); "
+            "copy (12%): copy.copy / copy.deepcopy / .copy() / .deepcopy() of 10 classes, then every buffer of "
             "the copy overwritten in place; non-trivial = deep copy with >= 2 arrays.  "
             "frame (20%): to_pandas/from_pandas or to_csv/from_csv (dict variants for models) with matching "
             "options (label columns on/off, renamed columns, M/cM units).  "
@@ -448,9 +544,11 @@ class C16(Prop):
             ">= 2 records, >= 2 distinct coordinates")
     TRUSTED = ["h5py: dataset read = dataset written (variable-length strings come back as bytes); "
                "path normalisation as modelled by Store.parsePath (checked by correspondence on odd spellings)",
-               "copy.copy / copy.deepcopy of a numpy array allocate a fresh buffer with equal contents",
-               "pandas / CSV text: a column read = the column written (floats to 1e-9); DataFrame(dict) keeps "
-               "insertion order",
+               "numpy.ndarray.__copy__/__deepcopy__ allocate a fresh buffer with equal contents (copy.deepcopy "
+               "itself — memo, dictionaries, the classes' __deepcopy__ — is modelled in Model/StoreGraph)",
+               "pandas: DataFrame(dict) keeps insertion order, df[name] finds the column; CSV text: the dialect "
+               "contract StoreFrame.Lawful (a printed float/int/label-safe string column is typed and parsed "
+               "back to itself, None = empty cell = NA; floats to 1e-9)",
                "cyvcf2: variant.genotypes[i] = [allele0, allele1, phased], vcf.samples, CHROM/POS/ID as written",
                "constructors of the 8 persistable classes as modelled by Store.construct* (checked on every "
                "generated object through the driver op c16.valid and on every read-back)"]
@@ -464,8 +562,14 @@ class C16(Prop):
                    "data-frame layouts: label arrays that the layout has no way to omit are present (trait names of "
                    "a breeding-value matrix, taxa of coancestry / variance matrices); variance-matrix labels are "
                    "sorted (the long layout is canonical in label order); column names are pairwise distinct",
-                   "VCF: integer chromosome names, an ID on every record, phased diploid calls without missing "
-                   "alleles"]
+                   "labels going through CSV text are label-safe: not number-, NA- or boolean-looking (read_csv "
+                   "would retype the column: '007' -> 7.0, 'NA' -> nan)",
+                   "VCF: phased diploid calls without missing alleles; a chromosome name that is not an integer "
+                   "literal is outside the quantifier (the matrix stores integer chromosomes; the import is "
+                   "refused with ValueError and the model says so); a record without ID is inside, its name is "
+                   "not compared (the code stores 'None')",
+                   "G_E_Phenotyping.__deepcopy__ hands the random source over on purpose (source comment 'should "
+                   "not be copied'): it is treated as an external resource, not as object state"]
 
     # ------------------------------------------------------------------ generation
     def corpus(self):
@@ -537,6 +641,27 @@ class C16(Prop):
                 {"chrom": 1, "pos": 2, "id": "t2", "calls": [[0, 2], [1, 3]]}]},
             {"kind": "vcf", "samples": ["a", "b"], "group": False, "phased": False, "recs": [
                 {"chrom": 1, "pos": 5, "id": "t1", "calls": [[2, 3], [3, 0]]}]},
+            # object graphs: aliased attributes (kept by the memo / split where the class copies without memo /
+            # split by .deepcopy() of the classes that call __deepcopy__(None)), nested instance
+            {"kind": "graph", "cls": "algmod", "ctx": 0, "grouped": False, "alias": "pair", "how": "copy.deepcopy",
+             "fields": {"beta": beta, "u_a": ua, "u_misc": ds("f64", [2, 2], [0, 1, 2, 3]),
+                        "hyperparams": {"dict": {"wts": ds("f64", [2], [1, "1/2"])}}}},
+            {"kind": "graph", "cls": "algmod", "ctx": 0, "grouped": False, "alias": "pair", "how": "obj.deepcopy",
+             "fields": {"beta": beta, "u_a": ua, "u_misc": ds("f64", [2, 2], [0, 1, 2, 3])}},
+            {"kind": "graph", "cls": "bvmat", "ctx": 0, "grouped": True, "alias": "pair", "how": "copy.deepcopy",
+             "fields": {"mat": ds("f64", [2, 1], [1, 2]), "location": ds("f64", [1], [3]), "scale": ds("f64", [1], [2]),
+                        "taxa_grp": ds("i64", [2], [2, 1])}},
+            {"kind": "graph", "cls": "ge", "ctx": 2, "grouped": False, "alias": "pair", "how": "obj.deepcopy",
+             "fields": {"nenv": ds("i64", [], [2]), "nrep": ds("i64", [2], [1, 3]),
+                        "var_env": ds("f64", [2], [1, 2]), "var_err": ds("f64", [2], ["1/2", 2])}},
+            # VCF: identifiers missing on some records; a chromosome that is not an integer (refused)
+            {"kind": "vcf", "samples": ["a", "b"], "group": True, "phased": True, "recs": [
+                {"chrom": 2, "pos": 5, "id": None, "calls": [[0, 1], [1, 0]]},
+                {"chrom": 1, "pos": 9, "id": "rs1", "calls": [[1, 1], [0, 0]]},
+                {"chrom": 1, "pos": 3, "id": None, "calls": [[0, 0], [1, 1]]}]},
+            {"kind": "vcf", "samples": ["a"], "group": False, "phased": True, "recs": [
+                {"chrom": 1, "pos": 5, "id": "m1", "calls": [[0, 1]]},
+                {"chrom": "X", "pos": 9, "id": "m2", "calls": [[1, 1]]}]},
             # genetic maps through CSV with non-default matching units on both sides
             {"kind": "frame", "cls": "sgmap", "ctx": 0, "via": "csv", "opts": {"units": "M"},
              "fields": {"vrnt_chrgrp": ds("i64", [3], [1, 1, 2]), "vrnt_phypos": ds("i64", [3], [10, 50, 5]),
@@ -603,8 +728,10 @@ class C16(Prop):
             r = rng.random()
             if r < 0.4:
                 out.append(self._gen_h5(rng))
-            elif r < 0.6:
+            elif r < 0.52:
                 out.append(self._gen_copy(rng))
+            elif r < 0.6:
+                out.append(self._gen_graph(rng))
             elif r < 0.8:
                 out.append(self._gen_frame(rng))
             else:
@@ -632,12 +759,14 @@ class C16(Prop):
         elif cls == "vmat":
             # the long layout is canonical in label order: taxa and traits sorted (numpy.unique)
             n, t = shape
-            names = sorted(fields["taxa"]["v"])
-            fields["taxa"] = ds("str", [n], names)
-            fields["trait"] = ds("str", [t], sorted(fields["trait"]["v"]))
+            srt = rng.random() < 0.65
+            if srt:
+                fields["taxa"] = ds("str", [n], sorted(fields["taxa"]["v"]))
+                fields["trait"] = ds("str", [t], sorted(fields["trait"]["v"]))
             if rng.random() < 0.4:
                 fields.pop("taxa_grp", None)
-            opts = {"grp": "taxa_grp" in fields}
+            # unsorted labels: the read-back must be the same labelled data in sorted label order
+            opts = {"grp": "taxa_grp" in fields, "sorted": srt}
         elif cls in ("sgmap", "egmap"):
             opts = {"units": rng.choice(["M", "cM", "Morgans", "centiMorgans"])}
             if cls == "egmap":
@@ -721,6 +850,22 @@ class C16(Prop):
         "algmod": ["beta", "u_misc", "u_a", "trait"], "adlgmod": ["beta", "u_misc", "u_a", "u_d", "trait"],
     }
 
+    @staticmethod
+    def _vmat_sorted(b):
+        """the same labelled variance matrix with taxa and traits in increasing label order"""
+        n, _, t = b["mat"]["sh"]
+        po = sorted(range(n), key=lambda i: b["taxa"]["v"][i])
+        to = sorted(range(t), key=lambda k: b["trait"]["v"][k])
+        v = b["mat"]["v"]
+        out = dict(b)
+        out["mat"] = ds(b["mat"]["dt"], [n, n, t], [v[(po[i] * n + po[j]) * t + to[k]]
+                                                     for i in range(n) for j in range(n) for k in range(t)])
+        out["taxa"] = ds("str", [n], [b["taxa"]["v"][i] for i in po])
+        out["trait"] = ds("str", [t], [b["trait"]["v"][k] for k in to])
+        if b.get("taxa_grp"):
+            out["taxa_grp"] = ds(b["taxa_grp"]["dt"], [n], [b["taxa_grp"]["v"][i] for i in po])
+        return out
+
     def _req_frame(self, case, obs):
         cls, b = case["cls"], obs["before"]
         if cls == "bvmat":
@@ -734,6 +879,25 @@ class C16(Prop):
             return [{"op": "c16.frame_gmap", "chrgrp": b["vrnt_chrgrp"]["v"], "phypos": b["vrnt_phypos"]["v"],
                      "genpos": b["vrnt_genpos"]["v"], "units_out": case["opts"]["units"],
                      "units_in": case["opts"]["units"]}]
+        lst = lambda k: b[k]["v"] if b.get(k) else None
+        if cls == "cmat":
+            n = b["mat"]["sh"][0]
+            return [{"op": "c16.frame_cmat", "mat": self._nest(b["mat"]["v"], [n, n]), "taxa": lst("taxa"),
+                     "taxa_grp": lst("taxa_grp"), "taxa_col": case["opts"]["taxa_col"],
+                     "taxa_grp_col": case["opts"]["taxa_grp_col"]}]
+        if cls == "egmap":
+            return [{"op": "c16.frame_egmap", "chrgrp": lst("vrnt_chrgrp"), "phypos": lst("vrnt_phypos"),
+                     "stop": lst("vrnt_stop"), "genpos": lst("vrnt_genpos"), "name": lst("vrnt_name"),
+                     "fncode": lst("vrnt_fncode"), "units": case["opts"]["units"],
+                     "read_name": case["opts"]["name"], "read_fncode": case["opts"]["fncode"]}]
+        if cls in ("algmod", "adlgmod"):
+            keys = ["beta", "u_misc", "u_a"] + (["u_d"] if cls == "adlgmod" else [])
+            t = b["beta"]["sh"][1]
+            return [{"op": "c16.frame_model", "ntrait": t, "trait": lst("trait"),
+                     "blocks": [{"k": k, "rows": self._nest(b[k]["v"], b[k]["sh"])} for k in keys]}]
+        if cls == "vmat":
+            return [{"op": "c16.frame_vmat", "mat": self._nest(b["mat"]["v"], b["mat"]["sh"]), "taxa": lst("taxa"),
+                     "taxa_grp": lst("taxa_grp"), "trait": lst("trait"), "with_grp": case["opts"]["grp"]}]
         return []
 
     @staticmethod
@@ -753,8 +917,11 @@ class C16(Prop):
         spec = obs["same_type"] and obs["src_after"] == obs["before"]
         if not spec:
             notes.append("type changed or exporting modified the source")
+        want = obs["before"]
+        if cls == "vmat" and not case["opts"].get("sorted", True):
+            want = self._vmat_sorted(want)
         for k in self.FRAME_FIELDS[cls]:
-            if not self._ds_close(obs["before"][k], obs["got"][k]):
+            if not self._ds_close(want[k], obs["got"][k]):
                 spec = False
                 notes.append(f"{k}: wrote {json.dumps(obs['before'][k])[:160]} read {json.dumps(obs['got'][k])[:160]}")
         if cls == "bvmat" and not self._ds_close(obs["unscaled_src"], obs["unscaled_got"]):
@@ -782,6 +949,34 @@ class C16(Prop):
             if not ok:
                 corr = False
                 notes.append(f"model={json.dumps(m)[:300]} impl={json.dumps(g)[:300]}")
+        flat = lambda x: [e for r in x for e in (flat(r) if isinstance(r, list) else [r])]
+        vals = lambda k: (obs["got"][k]["v"] if obs["got"].get(k) else None)
+        if cls in ("cmat", "egmap", "algmod", "adlgmod", "vmat"):
+            m = answers[0]["ok"]
+            g = obs["got"]
+            if "err" in m:
+                ok = False
+            elif cls == "cmat":
+                ok = (m["taxa"] == vals("taxa") and m["taxa_grp"] == vals("taxa_grp")
+                      and canon.close_enc(flat(m["mat"]), g["mat"]["v"], rel=1e-9, abs_=1e-12))
+            elif cls == "egmap":
+                ok = (m["chrgrp"] == vals("vrnt_chrgrp") and m["phypos"] == vals("vrnt_phypos")
+                      and m["stop"] == vals("vrnt_stop") and m["name"] == vals("vrnt_name")
+                      and m["fncode"] == vals("vrnt_fncode")
+                      and canon.close_enc(m["genpos"], g["vrnt_genpos"]["v"], rel=1e-9, abs_=1e-12))
+            elif cls == "vmat":
+                mm = flat(m["mat"])
+                ok = (m["taxa"] == vals("taxa") and m["taxa_grp"] == vals("taxa_grp") and m["trait"] == vals("trait")
+                      and None not in mm and not str(g["mat"]["dt"]).startswith("other")
+                      and canon.close_enc(mm, g["mat"]["v"], rel=1e-9, abs_=1e-12))
+            else:
+                ok = [str(x) for x in m["trait"]] == [str(x) for x in (vals("trait") or [])]
+                for blk in m["blocks"]:
+                    ok = ok and canon.close_enc(flat(blk["rows"]), g[blk["k"]]["v"], rel=1e-9, abs_=1e-12) \
+                        and [len(blk["rows"])] == g[blk["k"]]["sh"][:1]
+            if not ok:
+                corr = False
+                notes.append(f"model={json.dumps(m)[:300]} impl={json.dumps(g)[:300]}")
         return {"corr": corr, "spec": spec, "nontrivial": True,
                 "detail": f"frame[{cls},{case['via']},{json.dumps(case['opts'])}] " + "; ".join(notes)[:1200]}
 
@@ -797,17 +992,25 @@ class C16(Prop):
             amax = rng.choice([1, 1, 2, 3])
             recs.append({"chrom": rng.randint(1, nchr), "pos": rng.choice([10, 10, 20, 300, 4000, rng.randint(1, 10 ** 6)]),
                          "id": ids[j], "calls": [[rng.randint(0, amax), rng.randint(0, amax)] for _ in range(n)]})
+        # a fifth of the files have records without identifier (`.`); one file in twelve names a
+        # chromosome with something that is not an integer literal (must be refused)
+        if rng.random() < 0.2:
+            for r in recs:
+                if rng.random() < 0.5:
+                    r["id"] = None
+        if rng.random() < 0.08:
+            recs[rng.randrange(p)]["chrom"] = rng.choice(["X", "chr1", "1A", "Ⅷ", "2.0"])
         return {"kind": "vcf", "samples": samples, "recs": recs, "group": rng.random() < 0.6,
                 "phased": rng.random() < 0.6}
 
     @staticmethod
     def _vcf_text(case):
-        chroms = sorted({r["chrom"] for r in case["recs"]})
-        lines = ["##fileformat=VCFv4.2"] + ["##contig=<ID=%d>" % c for c in chroms]
+        chroms = sorted({str(r["chrom"]) for r in case["recs"]})
+        lines = ["##fileformat=VCFv4.2"] + ["##contig=<ID=%s>" % c for c in chroms]
         lines.append('##FORMAT=<ID=GT,Number=1,Type=String,Description="Genotype">')
         lines.append("\t".join(["#CHROM", "POS", "ID", "REF", "ALT", "QUAL", "FILTER", "INFO", "FORMAT"] + case["samples"]))
         for r in case["recs"]:
-            lines.append("\t".join([str(r["chrom"]), str(r["pos"]), r["id"], "A", "C,G,T", ".", ".", ".", "GT"]
+            lines.append("\t".join([str(r["chrom"]), str(r["pos"]), r["id"] if r["id"] is not None else ".", "A", "C,G,T", ".", ".", ".", "GT"]
                                    + ["%d|%d" % (a, b) for a, b in r["calls"]]))
         return "\n".join(lines) + "\n"
 
@@ -820,13 +1023,21 @@ class C16(Prop):
             with open(fn, "w", encoding="utf-8") as f:
                 f.write(self._vcf_text(case))
             cls = M["pgmat"] if case["phased"] else M["gmat"]
-            o = cls.from_vcf(fn, auto_group_vrnt=case["group"])
+            bad = [r["chrom"] for r in case["recs"] if not isinstance(r["chrom"], int)]
+            try:
+                o = cls.from_vcf(fn, auto_group_vrnt=case["group"])
+            except ValueError as e:
+                if not bad:
+                    raise
+                return {"fields": None, "refused": f"ValueError: {e}"[:200]}     # meant to be refused
             return {"fields": fields_of("pgmat" if case["phased"] else "gmat", o), "type": type(o).__name__}
         finally:
             shutil.rmtree(d, ignore_errors=True)
 
     def _req_vcf(self, case, obs):
         f = obs["fields"]
+        if f is None:
+            return [{"op": "c16.vcf", "samples": case["samples"], "recs": case["recs"], "group": case["group"]}]
         req = {"op": "c16.spec_vcf", "samples": case["samples"], "recs": case["recs"], "group": case["group"],
                "phased": case["phased"],
                "taxa": (f["taxa"] or {}).get("v", []), "chrgrp": (f["vrnt_chrgrp"] or {}).get("v", []),
@@ -846,7 +1057,16 @@ class C16(Prop):
         return [C16._nest(v[i * step:(i + 1) * step], sh[1:]) for i in range(sh[0])]
 
     def _judge_vcf(self, case, obs, answers):
+        if obs["fields"] is None:
+            # a chromosome name that is not an integer literal: outside the property's quantifier (the
+            # matrix stores integer chromosomes); the model says the import is refused, and so it was
+            m = answers[0]["ok"]
+            return {"corr": isinstance(m, dict) and "err" in m, "spec": True, "nontrivial": False,
+                    "detail": f"vcf refused ({obs['refused']}) model={json.dumps(m)[:100]}"}
         m, sp = answers[0]["ok"], answers[1]["ok"]
+        if isinstance(m, dict) and "err" in m:
+            return {"corr": False, "spec": True, "nontrivial": False,
+                    "detail": "vcf: the model refuses a file the implementation imported"}
         f = obs["fields"]
         n, p = len(case["samples"]), len(case["recs"])
         notes = []
@@ -879,6 +1099,67 @@ class C16(Prop):
         return {"corr": corr, "spec": spec, "nontrivial": nontriv,
                 "detail": f"vcf[{'phased' if case['phased'] else 'unphased'},group={case['group']}] "
                           + "; ".join(notes)[:1200]}
+
+    # ------------------------------------------------------------------ object graphs / copy.deepcopy
+    def _gen_graph(self, rng):
+        cls = rng.choice(["ge", "ge", "algmod", "adlgmod", "bvmat", "bvmat", "pgmat", "vmat", "sgmap"])
+        fields, ctx, grouped, _ = gen_obj(rng, cls, rich=rng.choice([0.5, 1.0]))
+        # aliasing inside the source: two attributes holding one and the same array
+        alias = rng.choice([None, None, "pair"])
+        return {"kind": "graph", "cls": cls, "fields": fields, "ctx": ctx, "grouped": grouped, "alias": alias,
+                "how": rng.choice(["copy.deepcopy", "obj.deepcopy"])}
+
+    ALIAS_PAIRS = {"bvmat": ("scale", "location"), "algmod": ("u_a", "u_misc"), "adlgmod": ("u_a", "u_d"),
+                   "ge": ("var_env", "var_err"), "pgmat": ("taxa_grp_name", "taxa_grp_len"),
+                   "vmat": ("taxa_grp_name", "taxa_grp_len"), "sgmap": ("vrnt_chrgrp_stix", "vrnt_chrgrp_len")}
+
+    def _impl_graph(self, case):
+        cls = case["cls"]
+        o = build(cls, case["fields"], case.get("ctx", 0), case.get("grouped", False))
+        if case.get("alias") and cls in self.ALIAS_PAIRS:
+            a, b = self.ALIAS_PAIRS[cls]
+            va = getattr(o, a)
+            if isinstance(va, numpy.ndarray) and isinstance(getattr(o, b), numpy.ndarray) \
+                    and getattr(o, b).shape == va.shape and getattr(o, b).dtype == va.dtype:
+                setattr(o, "_" + b, va)        # both attributes now refer to one buffer
+        g0 = Graph()
+        root0 = g0.ref(o)
+        src_cells = json.loads(json.dumps(g0.cells))
+        c = pycopy.deepcopy(o) if case["how"] == "copy.deepcopy" else o.deepcopy()
+        root1 = g0.ref(c)                      # same heap: sharing between source and copy shows up
+        cells = g0.cells
+        shared = sorted(g_reach(cells, root0) & g_reach(cells, root1))
+        return {"src_heap": src_cells, "src_root": root0,
+                "copy_canon": g_canon(cells, root1), "src_tree": g_tree(cells, root0),
+                "copy_tree": g_tree(cells, root1),
+                "shared_kinds": sorted({next(iter(cells[a])) for a in shared}),
+                "shared_n": len(shared), "same_type": type(c) is type(o), "ncells": len(src_cells)}
+
+    def _req_graph(self, case, obs):
+        return [{"op": "c16.deepcopy_graph", "heap": obs["src_heap"], "root": obs["src_root"],
+                 "method": case["how"] == "obj.deepcopy"}]
+
+    def _judge_graph(self, case, obs, answers):
+        m = answers[0]["ok"]
+        notes = []
+        mc = g_canon(m["heap"], m["root"])
+        corr = mc == obs["copy_canon"] and m["wf"] is True     # `wf` = hypothesis of the graph theorems
+        if not m["wf"]:
+            notes.append("the object graph of a real object is not acyclic / bottom-up")
+        if not corr:
+            notes.append(f"copy graph: model={json.dumps(mc)[:400]} impl={json.dumps(obs['copy_canon'])[:400]}")
+        mshared = g_reach(m["heap"], obs["src_root"]) & g_reach(m["heap"], m["root"])
+        mkinds = sorted({next(iter(m["heap"][a])) for a in mshared})
+        if (len(mshared), mkinds) != (obs["shared_n"], obs["shared_kinds"]):
+            corr = False
+            notes.append(f"shared cells: model={len(mshared)} {mkinds} impl={obs['shared_n']} {obs['shared_kinds']}")
+        spec = obs["same_type"] and obs["src_tree"] == obs["copy_tree"] and \
+            all(k == "ext" for k in obs["shared_kinds"])       # only the random source may be shared
+        if not spec:
+            notes.append(f"deep copy differs from its source or shares state: shared={obs['shared_kinds']} "
+                         f"equal={obs['src_tree'] == obs['copy_tree']}")
+        return {"corr": corr, "spec": spec, "nontrivial": obs["ncells"] >= 4,
+                "detail": f"graph[{case['cls']},{case['how']},alias={case.get('alias')}] " + "; ".join(notes)[:1200]}
 
     def _gen_copy(self, rng):
         cls = rng.choice(list(CLASSES))
@@ -1142,7 +1423,7 @@ class C16(Prop):
     # ------------------------------------------------------------------ findings, shrinking
     def signature(self, case, obs, verdict):
         sig = {"kind": case.get("kind")}
-        if case.get("kind") in ("copy", "frame"):
+        if case.get("kind") in ("copy", "frame", "graph"):
             sig["cls"] = case.get("cls")
         return sig
 
@@ -1321,6 +1602,17 @@ class C16(Prop):
             out._params = dict(self._params)                             # nested arrays shared
             return out
 
+        GE = M["ge"]
+        ge_deep = GE.__deepcopy__
+
+        def ge_deep_shares_model(self, memo=None):
+            out = ge_deep(self, memo)
+            out._gpmod = self._gpmod                                     # the bound genomic model is shared
+            return out
+
+        def al_deep_no_memo(self, memo=None):
+            return al_deep(self, None)                                   # aliasing between attributes is lost
+
         bv_copy = BV.__copy__
 
         def bv_copy_drops_trait(self):
@@ -1373,6 +1665,8 @@ class C16(Prop):
             ("deepcopy_same_array", lambda: patch_attr(PG, "__deepcopy__", pg_deep_shared)),
             ("deepcopy_shallow_hyperparams", lambda: patch_attr(AL, "__deepcopy__", al_deep_shallow_params)),
             ("copy_drops_trait", lambda: patch_attr(BV, "__copy__", bv_copy_drops_trait)),
+            ("deepcopy_shares_bound_model", lambda: patch_attr(GE, "__deepcopy__", ge_deep_shares_model)),
+            ("deepcopy_drops_memo", lambda: patch_attr(AL, "__deepcopy__", al_deep_no_memo)),
             ("vcf_genotypes_1_3", lambda: patch_attr(PG, "from_vcf", classmethod(from_vcf_shifted))),
             ("vcf_names_not_reordered", lambda: patch_attr(PG, "from_vcf", classmethod(from_vcf_labels_unsorted))),
         ]
